@@ -274,6 +274,34 @@ def default_inline(ctx):
     return resolve
 
 
+def helper_nodes(ctx, fi, depth=3):
+    """AST nodes of `fi` and of the functions it calls that did not exist when the rules were written (extracted helpers, module-level or methods),
+    transitively: what a syntactic search "inside fi" has to look at after a helper extraction. [(FunctionInfo, parameter map callee->caller name)]"""
+    known = known_functions()
+    out, seen, todo = [], set(), [(fi, 0)]
+    while todo:
+        f, d = todo.pop(0)
+        if f.qualname in seen:
+            continue
+        seen.add(f.qualname)
+        out.append(f)
+        if d >= depth:
+            continue
+        for n in ast.walk(f.node):
+            if not isinstance(n, ast.Call):
+                continue
+            target = None
+            if isinstance(n.func, ast.Name):
+                target = f.module.functions.get(n.func.id)
+            elif isinstance(n.func, ast.Attribute) and isinstance(n.func.value, ast.Name) and n.func.value.id == 'self' and f.cls is not None:
+                m = ctx.P.lookup(f.cls, n.func.attr)
+                if m is not None and m.kind == 'func':
+                    target = m.value
+            if target is not None and target.qualname not in known and target.qualname not in seen:
+                todo.append((target, d + 1))
+    return out
+
+
 def run(ctx, fi, **kw):
     if 'inline' not in kw:
         kw['inline'] = default_inline(ctx)
